@@ -7,6 +7,7 @@ package nodeenrollment
 
 import (
 	"context"
+	"time"
 
 	"google.golang.org/protobuf/proto"
 )
@@ -21,4 +22,9 @@ func lemmaEncryptDecrypt(ctx context.Context, msg proto.Message, s, r X25519KeyP
 	}
 	decErr = DecryptMessage(ctx, ct, r, out)
 	return nil, decErr
+}
+
+// lemmaSkewOptions: the options record built from the two clock-skew options.
+func lemmaSkewOptions(nb, na time.Duration) (*Options, error) {
+	return GetOpts(WithNotBeforeClockSkew(nb), WithNotAfterClockSkew(na))
 }
